@@ -37,7 +37,7 @@ fn hub(label: &str, f: impl FnOnce(&mut HubCore)) -> HubCore {
 
 pub fn build(id: &str, tier: Tier) -> Option<Check> {
     let q = tier == Tier::Quick;
-    let secs = tier.pick(400.0, 2400.0);
+    let secs = tier.pick(400.0, 1200.0);
     Some(match id {
         "C02" => Check {
             id: "C02",
